@@ -189,27 +189,23 @@ Section Model.
     if s_is_zero s then ROk O
     else if is0 (snd (last s (O, zero))) then RPanic else ROk (fst (last s (O, zero))).
 
-  (* pop trailing entries with zero coefficient *)
-  Fixpoint s_strip (s : list (nat * K)) : list (nat * K) :=
-    match s with
-    | [] => []
-    | t :: r => match s_strip r with
-                | [] => if is0 (snd t) then [] else [t]
-                | r' => t :: r'
-                end
-    end.
+  (* coeffs.retain(|(_, c)| !c.is_zero()): zero-coefficient terms are dropped wherever they are
+     (the constructor used to pop them only at the end of the raw list: F28, fixed in /repo) *)
+  Definition s_retain (s : list (nat * K)) : list (nat * K) :=
+    filter (fun t => negb (is0 (snd t))) s.
 
-  (* stable insertion sort by degree (slice::sort_by is stable) *)
+  (* stable insertion sort by degree (slice::sort_by is stable: `fold_right` inserts from the back, an
+     element goes in front of the first entry whose degree is >= its own) *)
   Fixpoint s_insert (t : nat * K) (s : list (nat * K)) : list (nat * K) :=
     match s with
     | [] => [t]
-    | u :: r => if Nat.ltb (fst t) (fst u) then t :: s else u :: s_insert t r
+    | u :: r => if Nat.leb (fst t) (fst u) then t :: s else u :: s_insert t r
     end.
   Definition s_sort (s : list (nat * K)) : list (nat * K) := fold_right s_insert [] s.
 
   (* SparsePolynomial::from_coefficients_vec / _slice *)
   Definition s_from_vec (s : list (nat * K)) : res (list (nat * K)) :=
-    let r := s_sort (s_strip s) in
+    let r := s_sort (s_retain s) in
     match r with
     | [] => ROk r
     | _ => if is0 (snd (last r (O, zero))) then RPanic else ROk r
